@@ -25,6 +25,7 @@ def jobs():
         from . import jobs_keyfile
         jobs_keyfile.register(_JOBS)
         jobs_keyfile.register_wrappers(_JOBS)
+        jobs_keyfile.register_t1(_JOBS)
         from . import jobs_parser
         jobs_parser.register(_JOBS)
         from . import jobs_merge
